@@ -194,7 +194,7 @@ def chunks(n, size):
     return [(lo, min(n, lo + size)) for lo in range(0, n, size)]
 
 
-def pmap_split(work, n, chunk, timeout=120.0, init=None, single_timeout=None, max_failures=24):
+def pmap_split(work, n, chunk, timeout=120.0, init=None, single_timeout=None, max_failures=24, max_hangs=24):
     """work((lo, hi)) over chunks of range(n); a chunk whose worker hangs/crashes is re-run one case at a
     time so the failure is attributed to a single case.  Once `max_failures` single cases have failed, the
     remaining cases of failed chunks are not re-run (result Crash('skipped', ...): the caller must report the
@@ -208,16 +208,18 @@ def pmap_split(work, n, chunk, timeout=120.0, init=None, single_timeout=None, ma
         else:
             out.append((job, r))
     failures = 0
+    hangs = 0
     batch = 4 * NPROC
     pos = 0
     while pos < len(retry):
-        if failures >= max_failures:
+        if failures >= max_failures or hangs >= max_hangs:
             out.extend((j, Crash("skipped", "not re-run: %d single-case failures already attributed" % failures))
                        for j in retry[pos:])
             break
         part = retry[pos:pos + batch]
         res2 = pmap(work, part, timeout=single_timeout or timeout, init=init)
         failures += sum(1 for r in res2 if isinstance(r, Crash))
+        hangs += sum(1 for r in res2 if isinstance(r, Crash) and r.kind == "hang")
         out.extend(zip(part, res2))
         pos += batch
     out.sort(key=lambda jr: jr[0][0])
